@@ -387,8 +387,29 @@ def cases_for(ctx):
             i += 1
 
 
+def long_table_cases(ctx):
+    """Tables far longer than any shipped one (17..130 points): every count
+    around the integrator's default subinterval limit and around multiples
+    of 32 / 33, with T_ref below, inside and above."""
+    i = 0
+    for n in (17, 31, 32, 33, 34, 35, 48, 49, 50, 51, 52, 64, 65, 66, 67, 99,
+              100, 130):
+        for pl in tables.PLACEMENTS:
+            for od in ('sorted', 'shuffled'):
+                if ctx.mine(i) and (ctx.tier == 'thorough' or
+                                    (i + ctx.seed) % 6 == 0):
+                    r = ctx.sub_rng('long', n, pl, od)
+                    c = tables.make_case(r, n, pl, 'wide', od)
+                    c['long_table'] = True
+                    yield c
+                i += 1
+
+
 def run_shard(ctx):
     for case in cases_for(ctx):
+        check_case(ctx, case)
+    for case in long_table_cases(ctx):
+        ctx.count('long_tables')
         check_case(ctx, case)
     for j, (lib, g) in enumerate(shipped_cases()):
         if ctx.mine(j):
